@@ -4,14 +4,14 @@ package sim
 // each property. Counts are fixed so that a tier explores the same cases for
 // a given VERIF_SEED regardless of machine speed.
 var Plans = map[string][]PlanItem{
-	"C01": {{Scen: "world", Quick: 6000, Thorough: 400000}, {Scen: "giant", Quick: 2, Thorough: 48}},
-	"C02": {{Scen: "world", Quick: 4000, Thorough: 250000}, {Scen: "giant", Quick: 2, Thorough: 48}, {Scen: "lifecycle", Quick: 800, Thorough: 60000}},
-	"C03": {{Scen: "world", Quick: 4000, Thorough: 250000}, {Scen: "giant", Quick: 2, Thorough: 32}, {Scen: "lifecycle", Quick: 800, Thorough: 60000}},
+	"C01": {{Scen: "world", Quick: 6000, Thorough: 400000}, {Scen: "giant", Quick: 4, Thorough: 48}},
+	"C02": {{Scen: "world", Quick: 4000, Thorough: 250000}, {Scen: "giant", Quick: 4, Thorough: 48}, {Scen: "lifecycle", Quick: 800, Thorough: 60000}},
+	"C03": {{Scen: "world", Quick: 4000, Thorough: 250000}, {Scen: "giant", Quick: 4, Thorough: 32}, {Scen: "lifecycle", Quick: 800, Thorough: 60000}},
 	"C04": {{Scen: "world", Quick: 3000, Thorough: 150000}, {Scen: "aligned", Quick: 6, Thorough: 64}},
 	"C05": {{Scen: "nav", Quick: 12000, Thorough: 600000}},
 	"C06": {{Scen: "stored", Quick: 5000, Thorough: 300000}},
-	"C07": {{Scen: "docvalues", Quick: 3000, Thorough: 200000}, {Scen: "giant", Quick: 3, Thorough: 64}, {Scen: "world", Quick: 2500, Thorough: 150000}},
-	"C08": {{Scen: "dictionary", Quick: 8000, Thorough: 500000}},
+	"C07": {{Scen: "docvalues", Quick: 3000, Thorough: 200000}, {Scen: "giant", Quick: 4, Thorough: 64}, {Scen: "world", Quick: 2500, Thorough: 150000}},
+	"C08": {{Scen: "dictionary", Quick: 8000, Thorough: 500000}, {Scen: "giant", Quick: 4, Thorough: 48}},
 	"C18": {{Scen: "dmt", Quick: 8000, Thorough: 500000}, {Scen: "lifecycle", Quick: 800, Thorough: 60000}},
 	"C13": {{Scen: "reuse", Quick: 6000, Thorough: 400000}, {Scen: "docvalues", Quick: 1500, Thorough: 100000}},
 	"C15": {{Scen: "immutability", Quick: 2000, Thorough: 200000}, {Scen: "lifecycle", Quick: 800, Thorough: 60000}, {Scen: "persist-fault", Quick: 40, Thorough: 2000}, {Scen: "read-fault", Quick: 120, Thorough: 6000}},
@@ -43,6 +43,10 @@ func LevelOf(prop string) string {
 var RacePlans = map[string][]PlanItem{
 	"C09": {{Scen: "concurrent", Quick: 640, Thorough: 50000}},
 	"C14": {{Scen: "build-history", Quick: 500, Thorough: 25000}},
+	// error paths: a failed or cancelled call must not leave anything behind that
+	// races with the caller's next use of the same objects
+	"C19": {{Scen: "read-fault", Quick: 64, Thorough: 4000}, {Scen: "merge-read-fault", Quick: 16, Thorough: 1000}},
+	"C12": {{Scen: "persist-fault", Quick: 16, Thorough: 1000}, {Scen: "merge-read-fault", Quick: 16, Thorough: 1000}},
 }
 
 // PlanFor returns the plan of a property for the normal or the race build.
